@@ -52,3 +52,52 @@ def pick_samples(run, samples_by_unit, index, limit=30):
         if len(out) >= limit:
             break
     run.samples.extend(out)
+
+
+def samples_vec(spec, indices, nsamples=2, name="samples", index_of=None):
+    """Rust: Vec<(usize, E)> with the default payload and nsamples non-default payloads per variant.
+    The usize is the position in `indices` unless index_of maps it."""
+    items = []
+    for pos, i in enumerate(indices):
+        v = spec.variants[i]
+        key = pos if index_of is None else index_of(i)
+        items.append("(%d, %s)" % (key, v.ctor(spec.path(), v.default_exprs())))
+        if v.fields:
+            for k in range(nsamples):
+                items.append("(%d, %s)" % (key, v.ctor(spec.path(), v.sample_exprs(k))))
+    return "let %s: Vec<(usize, %s)> = vec![%s];" % (name, spec.ty(), ", ".join(items))
+
+
+def str_slice(strings):
+    return "&[%s]" % ", ".join(rs_str(s) for s in strings)
+
+
+def bool_slice(bs):
+    return "&[%s]" % ", ".join("true" if b else "false" for b in bs)
+
+
+PRINTERS = {
+    "Display": [("to_string", "|v: &{T}| v.to_string()"), ("format", '|v: &{T}| format!("{}", v)')],
+    "ToString": [("to_string(derive ToString)", "|v: &{T}| v.to_string()")],
+    "AsRefStr": [("as_ref", "|v: &{T}| { let s: &str = v.as_ref(); s.to_string() }")],
+    "AsStaticStr": [("as_static", "|v: &{T}| strum::AsStaticRef::<str>::as_static(v).to_string()")],
+    "IntoStaticStr": [("into_static(&v)", "|v: &{T}| { let s: &'static str = v.into(); s.to_string() }"),
+                      ("into_static(v)", "|v: &{T}| { let s: &'static str = v.clone().into(); s.to_string() }")],
+    "const_into_str": [("into_str", "|v: &{T}| v.into_str().to_string()")],
+}
+
+
+def printers_code(spec, name="printers"):
+    lines = []
+    names = []
+    k = 0
+    ders = list(spec.derives)
+    if spec.const_into_str and "IntoStaticStr" in ders:
+        ders.append("const_into_str")
+    for d in ders:
+        for label, code in PRINTERS.get(d, []):
+            lines.append("    let p%d = %s;" % (k, code.replace("{T}", spec.ty())))
+            names.append('(%s, &p%d as &dyn Fn(&%s) -> String)' % (rs_str(label), k, spec.ty()))
+            k += 1
+    lines.append("    let %s: Vec<vmon::names::Printer<%s>> = vec![%s];" % (name, spec.ty(), ", ".join(names)))
+    return "\n".join(lines)
